@@ -305,3 +305,235 @@ def data_plane_enum(depth, with_stats=True):
             ops.append("PULL %s 1000 1" % Sn)
             cases.append(("enum-" + "-".join(seq), ops))
     return cases
+
+
+# ---------------------------------------------------------------- deadline probes (C04 / C05)
+
+def deadline_of(t0_ms, secs):
+    """round_deadline on the ms grid, in ms: t + (t mod 100 ms)."""
+    t = t0_ms + secs * 1000
+    return t + (t % 100)
+
+
+def deadline_probe_cases(phases, ackdls=(0, 10, 11, 15), mods=(None,), prefix="dl"):
+    """For each hand-out phase: deliver, then probe 1 ms before, at, and 1 ms after the deadline.
+    With mods: after delivery at t0, at t0+3s a MOD n is issued and the probes bracket the new deadline
+    (and the old one, to see that it is gone)."""
+    T = hx(tname("p", "t"))
+    cases = []
+    for p in phases:
+        for dl in ackdls:
+            for mod in mods:
+                Sn = hx(sname("p", "s"))
+                eff = max(10, dl)
+                ops = ["CT " + T, "CS %s %s %d ~" % (Sn, T, dl)]
+                if p:
+                    ops.append("ADV %d" % (p * MS))
+                ops += ["PUB %s 2 61 0 62 0" % T, "PULL %s 1 1" % Sn]          # lease A at t0 = p
+                now = p
+                d_a = deadline_of(p, eff)
+                # a second lease 40 ms later with its own deadline
+                ops += ["ADV %d" % (40 * MS), "PULL %s 1 1" % Sn]
+                now += 40
+                d_b = deadline_of(now, eff)
+                events = sorted({d_a, d_b})
+                if mod is not None:
+                    ops.append("ADV %d" % (3000 * MS))
+                    now += 3000
+                    ops.append("MOD %s %d 1 ^0" % (Sn, mod))                    # modify lease A
+                    if mod == 0:
+                        events = [d_b]
+                        ops.append("PULL %s 5 1" % Sn)                          # nacked: back at once
+                    elif mod > 0:
+                        d_m = deadline_of(now, min(mod, 600))
+                        events = sorted({d_m, d_b, d_a})
+                for d in events:
+                    if d - 1 > now:
+                        ops.append("ADV %d" % ((d - 1 - now) * MS))
+                        now = d - 1
+                        ops += ["STATS " + Sn, "PULL %s 5 1" % Sn]
+                    if d > now:
+                        ops.append("ADV %d" % ((d - now) * MS))
+                        now = d
+                        ops += ["STATS " + Sn, "PULL %s 5 1" % Sn]
+                    ops.append("ADV %d" % MS)
+                    now += 1
+                    ops += ["STATS " + Sn, "PULL %s 5 1" % Sn]
+                ops += ["ACK %s 2 ^0 ^1" % Sn, "STATS " + Sn]
+                cases.append(("%s-p%d-a%d-m%s" % (prefix, p, dl, mod), ops))
+    return cases
+
+
+# ---------------------------------------------------------------- pagination walks (C13)
+
+def paging_walk_cases(counts, sizes, seed=0, prefix="pg"):
+    rng = random.Random(seed)
+    cases = []
+    for n in counts:
+        for size in sizes:
+            ops = []
+            names = []
+            # two projects interleaved, some deletions before the walk
+            for i in range(n):
+                t = tname("p", "t%03d" % i)
+                ops.append("CT " + hx(t))
+                names.append(t)
+                if i % 7 == 3:
+                    ops.append("CT " + hx(tname("other", "x%d" % i)))
+            dels = [x for i, x in enumerate(names) if rng.random() < 0.15]
+            for d in dels:
+                ops.append("DT " + hx(d))
+            live = [x for x in names if x not in dels]
+            # subscriptions on the first live topic, some in another project's namespace
+            subs = []
+            if live:
+                for i in range(min(n, 25)):
+                    s = sname("p", "s%03d" % i)
+                    ops.append("CS %s %s 10 ~" % (hx(s), hx(live[0])))
+                    subs.append(s)
+                for s in subs[::5]:
+                    ops.append("DS " + hx(s))
+            eff = 20 if size == 0 else min(size, 1000) if size > 0 else 0
+            steps = (n // max(eff, 1)) + 3 if size >= 0 else 1
+            for kind, arg in (("LT", hx("projects/p")), ("LS", hx("projects/p")),
+                              ("LTS", hx(live[0]) if live else hx(tname("p", "none")))):
+                tok = "-"
+                for k in range(min(steps, 60)):
+                    ops.append("%s %s %d %s" % (kind, arg, size, tok))
+                    tok = hx(token_of((k + 1) * eff))
+                ops.append("%s %s %d %s" % (kind, arg, size, hx(token_of(n + 5))))
+                ops.append("%s %s %d %s" % (kind, arg, size, hx(rng.choice(BAD_TOKENS))))
+            cases.append(("%s-n%d-s%d" % (prefix, n, size), ops))
+    return cases
+
+
+# ---------------------------------------------------------------- batch limits (C15)
+
+def capacity_cases(backlogs, maxes, prefix="cap"):
+    T, Sn = hx(tname("p", "t")), hx(sname("p", "s"))
+    cases = []
+    for b in backlogs:
+        for m in maxes:
+            ops = ["CT " + T, "CS %s %s 10 ~" % (Sn, T)]
+            left = b
+            while left > 0:
+                k = min(left, 20000)
+                ops.append("PUBN %s %d 78" % (T, k))
+                left -= k
+            ops += ["STATS " + Sn, "PULL %s %d 1" % (Sn, m), "STATS " + Sn, "PULL %s %d 1" % (Sn, m), "STATS " + Sn]
+            cases.append(("%s-b%d-m%d" % (prefix, b, m), ops))
+    return cases
+
+
+def stream_capacity_cases(backlogs, maxes, prefix="scap"):
+    T, Sn = hx(tname("p", "t")), hx(sname("p", "s"))
+    cases = []
+    for b in backlogs:
+        for m in maxes:
+            ops = ["SEED 1", "CT " + T, "CS %s %s 10 ~" % (Sn, T)]
+            if b:
+                ops.append("PUBN %s %d 78" % (T, b))
+            ops += ["SO 1 %s %d 0 10" % (Sn, m), "SR 1", "STATS " + Sn, "PUBN %s 3 79" % T, "SR 1", "STATS " + Sn]
+            cases.append(("%s-b%d-m%d" % (prefix, b, m), ops))
+    return cases
+
+
+# ---------------------------------------------------------------- malformed requests (C17)
+
+def malformed_cases(seed, n, prefix="bad"):
+    rng = random.Random(seed)
+    T, Sn = tname("p", "t"), sname("p", "s")
+    odd_strings = ["", " ", "/", "projects/", "é", "١", "a" * 300, "projects/p/topics/" + "/" * 20,
+                   "projects/p/topics/t\n", "projects/p/subscriptions/é/é"] + MALFORMED_NAMES
+    ints = [-2147483648, -1, 0, 1, 65535, 65536, 2147483647]
+    cases = []
+    for i in range(n):
+        ops = ["SEED %d" % i, "CT " + hx(T), "CS %s %s 10 ~" % (hx(Sn), hx(T)), "PUB %s 2 61 0 62 0" % hx(T),
+               "PULL %s 1 1" % hx(Sn)]
+        for _ in range(rng.randrange(3, 9)):
+            k = rng.randrange(14)
+            bad = rng.choice(odd_strings)
+            if k == 0:
+                ops.append("CT " + hx(bad))
+            elif k == 1:
+                ops.append("GT " + hx(bad))
+            elif k == 2:
+                ops.append("DT " + hx(bad))
+            elif k == 3:
+                ops.append("CS %s %s %d %s" % (hx(bad if rng.random() < 0.5 else sname("p", "n%d" % rng.randrange(3))),
+                                               hx(T if rng.random() < 0.5 else bad), rng.choice(ints),
+                                               rng.choice(["~", hx("ftp://x"), hx(""), hx("nothttp"), hx("http://ok")])))
+            elif k == 4:
+                ops.append("GS " + hx(bad))
+            elif k == 5:
+                ops.append("DS " + hx(bad))
+            elif k == 6:
+                ops.append("%s %s %d %s" % (rng.choice(["LT", "LS"]), hx(rng.choice(["projects/p", bad])),
+                                            rng.choice(ints), hx(rng.choice(BAD_TOKENS + [""]))))
+            elif k == 7:
+                ops.append("LTS %s %d %s" % (hx(rng.choice([T, bad])), rng.choice(ints), hx(rng.choice(BAD_TOKENS + [""]))))
+            elif k == 8:
+                ops.append("PUB %s 1 61 0" % hx(bad))
+            elif k == 9:
+                ops.append("PULL %s %d 1" % (hx(rng.choice([Sn, bad])), rng.choice(ints)))
+            elif k == 10:
+                ids = [hx(rng.choice(BAD_ACK_IDS)) if rng.random() < 0.6 else "@0" for _ in range(rng.randrange(1, 4))]
+                rng.shuffle(ids)
+                ops.append("ACK %s %d %s" % (hx(rng.choice([Sn, Sn, bad])), len(ids), " ".join(ids)))
+            elif k == 11:
+                ids = [hx(rng.choice(BAD_ACK_IDS)) if rng.random() < 0.5 else "@0" for _ in range(rng.randrange(1, 4))]
+                rng.shuffle(ids)
+                ops.append("MOD %s %d %d %s" % (hx(rng.choice([Sn, Sn, bad])), rng.choice(ints + [5, 600]), len(ids), " ".join(ids)))
+            elif k == 12:
+                ops += ["SO 9 %s %d %d 10" % (hx(rng.choice([Sn, bad])), rng.choice(ints), rng.choice([0, -1, 5])), "SR 9"]
+            else:
+                # a stream with one bad control message at a random position of the batch
+                acks = ["@0"] + ([hx(rng.choice(BAD_ACK_IDS))] if rng.random() < 0.5 else [])
+                mods = ["@0"] + ([hx(rng.choice(BAD_ACK_IDS))] if rng.random() < 0.4 else [])
+                rng.shuffle(acks)
+                rng.shuffle(mods)
+                secs = [rng.choice([5, 0, -1, 600]) for _ in mods]
+                if rng.random() < 0.2:
+                    secs.append(1)
+                sid = 20 + len(ops)
+                ops += ["SO %d %s 10 0 10" % (sid, hx(Sn)), "SR %d" % sid,
+                        " ".join(("SS %d - 0 0 %d %s %d %s %d %s" % (sid, len(acks), " ".join(acks), len(mods), " ".join(mods),
+                                                                      len(secs), " ".join(map(str, secs)))).split()),
+                        "SR %d" % sid, "SC %d" % sid]
+            ops.append("STATS " + hx(Sn))
+        # health probe: everything else still works
+        ops += ["GT " + hx(T), "GS " + hx(Sn), "PUB %s 1 7a 0" % hx(T), "PULL %s 10 1" % hx(Sn), "ACK %s 1 @0" % hx(Sn),
+                "LT %s 0 -" % hx("projects/p"), "LS %s 0 -" % hx("projects/p"), "LTS %s 0 -" % hx(T), "STATS " + hx(Sn)]
+        cases.append(("%s%d" % (prefix, i), [" ".join(o.split()) for o in ops]))
+    return cases
+
+
+# ---------------------------------------------------------------- payloads (C09)
+
+def payload_cases(seed, n, prefix="pl"):
+    rng = random.Random(seed)
+    cases = []
+    big = bytes(rng.randrange(256) for _ in range(5000))
+    datas = [b"", b"\x00", b"\xff" * 3, big, "héllo wörld ✓".encode(), bytes(range(256))]
+    keys = ["k", "", "é", "a b", "K", "k" * 50, "z/z"]
+    for i in range(n):
+        T, S1, S2 = tname("p", "t"), sname("p", "a"), sname("p", "b")
+        ops = ["CT " + hx(T), "CS %s %s 10 ~" % (hx(S1), hx(T)), "CS %s %s 12 ~" % (hx(S2), hx(T))]
+        for _ in range(rng.randrange(1, 4)):
+            k = rng.randrange(1, 4)
+            parts = [str(k)]
+            for _ in range(k):
+                parts.append(hx(rng.choice(datas)))
+                na = rng.randrange(0, 4)
+                ks = rng.sample(keys, na)
+                parts.append(str(na))
+                for key in ks:
+                    parts += [hx(key), hx(rng.choice(["v", "", "ü", "x" * 40]))]
+            ops.append("PUB %s %s" % (hx(T), " ".join(parts)))
+        ops += ["PULL %s 2 1" % hx(S1), "PULL %s 100 1" % hx(S2), "MOD %s 0 1 @0" % hx(S2), "PULL %s 100 1" % hx(S2),
+                "ADV %d" % (10200 * MS), "PULL %s 100 1" % hx(S1), "ADV %d" % (12200 * MS), "PULL %s 100 1" % hx(S2)]
+        # delete and re-create the topic under the same name: ids must not repeat
+        ops += ["DT " + hx(T), "CT " + hx(T), "CS %s %s 10 ~" % (hx(sname("p", "c")), hx(T)), "PUB %s 1 6e 0" % hx(T),
+                "PULL %s 5 1" % hx(sname("p", "c")), "PULL %s 100 1" % hx(S1), "GS " + hx(S1)]
+        cases.append(("%s%d" % (prefix, i), ops))
+    return cases
